@@ -26,8 +26,8 @@ RULE = (
     '@import; distinct_nontrivial = distinct (owner, model state, operation, outcome) tuples reached'
 )
 ASSUMPTIONS = ['"handheld" special-casing mentioned in a docstring is not asserted either way', 'feature values outside the documented set are not generated']
-MIN_EVENTS = {'quick': {'oracle.query-assign-bad': 2400, 'mode.log': 7000, 'oracle.step': 20000, 'oracle.query-construction': 3000, 'oracle.malformed-rejected': 400, 'rejections': 1500},
-              'thorough': {'oracle.query-assign-bad': 60000, 'mode.log': 170000, 'oracle.step': 600000, 'oracle.query-construction': 80000, 'oracle.malformed-rejected': 10000, 'rejections': 40000}}
+MIN_EVENTS = {'quick': {'oracle.query-assign-bad': 2400, 'mode.log': 7000, 'oracle.step': 20000, 'oracle.query-construction': 3000, 'oracle.malformed-rejected': 400, 'rejections': 1500, 'oracle.lend': 1300, 'oracle.owner-reparse': 1500},
+              'thorough': {'oracle.query-assign-bad': 60000, 'mode.log': 170000, 'oracle.step': 600000, 'oracle.query-construction': 80000, 'oracle.malformed-rejected': 10000, 'rejections': 40000, 'oracle.lend': 30000, 'oracle.owner-reparse': 35000}}
 
 TYPES = G.MEDIA_TYPES
 
@@ -134,6 +134,12 @@ def make_owner(cssutils, owner, text):
         sheet = cssutils.parseString('@media %s {a{top:0}}' % text)
         r = sheet.cssRules[0]
         return r.media, r, sheet
+    if owner == 'import-late':
+        # the rule is parsed without a list (a comment stands before the address) and gets it afterwards
+        sheet = cssutils.parseString('@import /*c*/ "x.css";')
+        r = sheet.cssRules[0]
+        r.media = text
+        return r.media, r, sheet
     sheet = cssutils.parseString('@import "x.css" %s;' % text)
     r = sheet.cssRules[0]
     return r.media, r, sheet
@@ -195,7 +201,7 @@ def observe(ctx, cssutils, ml, m, case, step, owner_obj):
 
 def run_history(ctx, cssutils, rng, ops_in=None, owner_in=None, init_in=None, raising_in=None):
     g = G.Gen(rng)
-    owner = owner_in or rng.choice(['none', 'none', 'media', 'import'])
+    owner = owner_in or rng.choice(['none', 'none', 'media', 'media', 'import', 'import', 'import-late'])
     m = Model()
     if init_in is not None:
         init = init_in
@@ -221,7 +227,7 @@ def run_history(ctx, cssutils, rng, ops_in=None, owner_in=None, init_in=None, ra
             real[j - 1] = real[j - 1] + ' /*c*/'
             text = ', '.join(real)
     first_real = [q for q, t in init if q[2] != 'comment'][0]
-    if owner == 'import' and first_real[1] is None:
+    if owner in ('import', 'import-late') and first_real[1] is None:
         owner = 'media'  # '(' first in an @import media list is a known finding of C02
     ops = []
     # error mode: in log mode a refused edit is reported, not raised, and must leave the list alone all the same
@@ -243,7 +249,7 @@ def run_history(ctx, cssutils, rng, ops_in=None, owner_in=None, init_in=None, ra
             op = script[step]
             k = op[0]
         else:
-            k = rng.choice(['append', 'append', 'append', 'delete', 'delete', 'delete-absent', 'assign', 'setitem', 'append-bad', 'assign-bad', 'query-assign-bad', 'query-assign-bad'])
+            k = rng.choice(['append', 'append', 'append', 'delete', 'delete', 'delete-absent', 'assign', 'setitem', 'append-bad', 'assign-bad', 'query-assign-bad', 'query-assign-bad', 'lend'])
             op = [k]
             if k in ('append', 'setitem'):
                 q, t = rand_query(rng, g)
@@ -262,6 +268,8 @@ def run_history(ctx, cssutils, rng, ops_in=None, owner_in=None, init_in=None, ra
             elif k == 'assign':
                 qs = [rand_query(rng, g) for _ in range(rng.randint(1, 4))]
                 op.append([[norm(q), t] for q, t in qs])
+            elif k == 'lend':
+                op += [rng.choice(['media', 'import']), ', '.join(rand_query(rng, g)[1] for _ in range(rng.randint(1, 2)))]
             elif k == 'append-bad':
                 op.append(rng.choice(['3d', 'print and', 'tv (color)', 'x y', '(color', 'print,', 'and (color)', 'nosuchmedium']))
             elif k == 'query-assign-bad':
@@ -341,6 +349,27 @@ def run_history(ctx, cssutils, rng, ops_in=None, owner_in=None, init_in=None, ra
                     # the model cannot say what a non-canonical list should do next: stop this history here
                     observe(ctx, cssutils, ml, m, case, step, owner_obj)
                     return
+            elif k == 'lend':
+                # another rule is handed this very list object, and afterwards a text of its own: that is an edit of the
+                # other rule.  Neither this list nor a list that the other rule held before is edited by it.
+                ctx.count('oracle.lend')
+                osheet = cssutils.parseString('@media tv, tty {b{left:0}}' if op[1] == 'media' else '@import "y.css" tv, tty;')
+                other = osheet.cssRules[0]
+                held = other.media
+                held_before = (norm(P.p_media(held)), held.mediaText)
+                other.media = ml
+                if other.media is not ml:
+                    ctx.violation('lend', dict(case, failed_at=step), {'op': op, 'what': 'the rule does not hold the list it was given'})
+                    return
+                other.media = op[2]
+                held_after = (norm(P.p_media(held)), held.mediaText)
+                if held_after != held_before:
+                    ctx.violation('lend', dict(case, failed_at=step), {'op': op, 'what': 'a list the rule held before changed', 'before': held_before, 'after': held_after})
+                    return
+                if other.media is ml:
+                    ctx.violation('lend', dict(case, failed_at=step), {'op': op, 'what': 'a text assigned to the other rule was written into the lent list'})
+                    return
+                # (the list observed below must read as before: the model is not touched)
             elif k == 'query-assign-bad':
                 if not m.q or with_comment:
                     ops.pop()
@@ -393,6 +422,14 @@ def run_history(ctx, cssutils, rng, ops_in=None, owner_in=None, init_in=None, ra
                 txt = sheet.cssText.decode()
                 if ml.mediaText not in txt and m.q and ml.mediaText.lower() != 'all':
                     ctx.violation('owner-serialisation', dict(case, failed_at=step), {'sheet': txt, 'mediaText': ml.mediaText})
+                elif m.q and not (owner.startswith('import') and m.q[0][1] is None):
+                    # ... and a parse of that text gives the rule the same list back
+                    # ('(' first in an @import media list is a known finding of C02: not asked here)
+                    ctx.count('oracle.owner-reparse')
+                    again = cssutils.parseString(txt)
+                    got = norm(P.p_media(again.cssRules[0].media)) if again.cssRules.length and hasattr(again.cssRules[0], 'media') else None
+                    if got != norm(m.q):
+                        ctx.violation('owner-serialisation', dict(case, failed_at=step), {'sheet': txt, 'reparsed': got, 'expected': norm(m.q)}, features=case.get('features', []))
             except Exception as e:
                 ctx.violation('exception', dict(case, failed_at=step), {'tb': core.short_tb(e)}, site=core.raise_site(e))
 
